@@ -177,7 +177,7 @@ class State:
         s.visits = dict(self.visits)
         s.occ = dict(self.occ)
         s.hh = self.hh
-        s.frames = {k: dict(v) for k, v in self.frames.items()}
+        s.frames = {k: (dict(v) if isinstance(v, dict) else v) for k, v in self.frames.items()}
         # env must stay the same object as its frame entry
         for k, v in self.frames.items():
             if v is self.env:
@@ -187,8 +187,13 @@ class State:
 
 class SymEx:
     def __init__(self, prog, inline_depth=4, inline_max_blocks=60, inline_pred=None, loop_visits=2,
-                 max_paths=MAX_PATHS, eff=None, havoc_loops=False, inner_diverge=False):
+                 max_paths=MAX_PATHS, eff=None, havoc_loops=False, inner_diverge=False, trip_events=False, emit_cut=False):
         self.prog = prog
+        # trip_events: record an event ('trip', body, header block) each time a loop header of the analysed body is entered again;
+        # emit_cut: also output the path prefixes abandoned at the loop-revisit bound (Path.diverged == 'cut') -- for rules about what happens
+        # BETWEEN consecutive iterations of a loop that may go round any number of times
+        self.trip_events = trip_events
+        self.emit_cut = emit_cut
         # havoc_loops: on entering a loop, everything the loop may modify (locals assigned / mutably borrowed in it, the whole heap)
         # becomes unknown, so that terms never denote a first-iteration value of loop-carried state (needed for value-range arguments)
         self.havoc_loops = havoc_loops
@@ -423,6 +428,27 @@ class SymEx:
                     folded = None
                 if folded is not None and a[1] != 0 and c[1] != 0 and base in ('Mul', 'Div', 'Shl', 'Shr', 'BitAnd', 'BitOr'):
                     return ('ovfpair', ('c', folded)) if op.endswith('WithOverflow') else ('c', folded)
+            # unsigned arithmetic with a power of two is written in its shift / mask form, whichever way the source spells it:
+            # x * 2^k = x << k (where it does not overflow -- the overflow assert is a separate obligation), x / 2^k = x >> k, x % 2^k = x & (2^k - 1)
+            if base in ('Mul', 'Div', 'Rem'):
+                def _ty(o_):
+                    if o_.get('pty'):
+                        return o_['pty']
+                    if o_.get('k') in ('copy', 'move') and not o_['pl'].get('p'):
+                        return b.local_ty(o_['pl']['l'])['s']
+                    return (o_.get('ty') or {}).get('s') if isinstance(o_.get('ty'), dict) else None
+                uns = _ty(rv['a']) in ('u8', 'u16', 'u32', 'u64', 'u128', 'usize') or _ty(rv['b']) in ('u8', 'u16', 'u32', 'u64', 'u128', 'usize')
+
+                def _pow2(x_):
+                    return x_[0] == 'c' and isinstance(x_[1], int) and not isinstance(x_[1], bool) and x_[1] >= 2 and (x_[1] & (x_[1] - 1)) == 0
+                nt = None
+                if uns and _pow2(c):
+                    k_ = c[1].bit_length() - 1
+                    nt = ('bin', 'Shl', a, ('c', k_)) if base == 'Mul' else (('bin', 'Shr', a, ('c', k_)) if base == 'Div' else ('bin', 'BitAnd', a, ('c', c[1] - 1)))
+                elif uns and base == 'Mul' and _pow2(a):
+                    nt = ('bin', 'Shl', c, ('c', a[1].bit_length() - 1))
+                if nt is not None:
+                    return ('ovfpair', nt) if op.endswith('WithOverflow') else nt
             if op.endswith('WithOverflow'):
                 return ('ovfpair', ('bin', op[:-len('WithOverflow')], a, c))
             if op in ('BitAnd', 'BitOr') and (self.is_boolish(a) or self.is_boolish(c)):
@@ -527,8 +553,18 @@ class SymEx:
                 raise PathLimit(b.nid)
             n = st.visits.get((b.nid, bi, depth), 0)
             if n >= self.loop_visits:
+                if self.emit_cut and cont is None:
+                    self.npaths += 1
+                    out.append(Path(st.conds, None, st.events, 'cut', st.known))
                 return  # loop cut: abandon this path prefix (other exits cover it)
             st.visits[(b.nid, bi, depth)] = n + 1
+            if self.trip_events and cont is None:
+                hd_ = self._loop_hdr.get(('hdrs', b.nid))
+                if hd_ is None:
+                    hd_ = {h_ for h_, _b, _e in b.loops()}
+                    self._loop_hdr[('hdrs', b.nid)] = hd_
+                if bi in hd_:
+                    st.events.append(('trip', b.nid, bi, None, b.nid))
             if self.havoc_loops and n == 0:
                 hd = self._loop_hdr.get(b.nid)
                 if hd is None:
@@ -757,6 +793,20 @@ class SymEx:
                 elif fb is not None and '::' in fn_ and not fn_.startswith('<'):
                     ctx_adts.add(fn_.rsplit('::', 1)[0])
             cand = [tg for tg in targets if (getattr(prog.bodies[tg], 'impl_self', None) or {}).get('adt') and norm(prog.bodies[tg].impl_self['adt']) in ctx_adts]
+            sty_ = str((t.get('self_ty') or {}).get('s') or '')
+            a0ty_ = str((t['args'][0].get('pty') or '') if t['args'] else '')
+            import re as _re
+            static_sel = bool(sty_) and not _re.search(r'(?<![A-Za-z0-9_])%s(?![A-Za-z0-9_])' % _re.escape(sty_), a0ty_)
+            if len(cand) != 1 and static_sel:
+                # an associated function of a type PARAMETER that takes no `self` (a selector type: `T::of(entry)`): the impl is the one of the type
+                # the enclosing (inlined) generic function was instantiated with -- `f::<ByWriteTime, _>(..)`
+                gadts = set()
+                for fk_, fv_ in st.frames.items():
+                    if isinstance(fk_, str) and fk_.startswith('#gargs:'):
+                        gadts |= {norm(g_) for g_ in fv_}
+                cg = [tg for tg in targets if (getattr(prog.bodies[tg], 'impl_self', None) or {}).get('adt') and norm(prog.bodies[tg].impl_self['adt']) in gadts]
+                if len(cg) == 1:
+                    cand = cg
             if len(cand) == 1 and cand[0] in st.frames and len(targets) == 2:
                 cand = []       # the blanket / wrapper impl being executed delegates to the impl of its inner type, not to itself
             if len(cand) == 1:
@@ -774,6 +824,8 @@ class SymEx:
                 self._exec(_b, _target, s2, _depth, out, _cont)
 
             iargs = raw
+            if t.get('gargs'):
+                st.frames['#gargs:' + tg.nid] = tuple(str(g_) for g_ in t['gargs'])
             if tg.kind == 'closure' and callee_raw and callee_raw.startswith('std::ops::Fn') and len(raw) == 2:
                 # Fn*::call*(closure, (args,)) resolved to the closure body: the body takes the arguments untupled
                 iargs = [raw[0]] + self.untuple(self.localval(st, raw[1], b))
@@ -785,6 +837,17 @@ class SymEx:
         val = self.call_term(st, cname, tuple(args), targets)
         st.events.append(('call', cname, tuple(args), line, b.nid, self.place_key(b, st, dest), val))
         return finish(val)
+
+    def _incrate_iter_next(self, v):
+        """The in-crate `Iterator::next` impl for the value's type, if the value is an aggregate of a crate-local struct that implements Iterator."""
+        if not (isinstance(v, tuple) and v and v[0] == 'aggr'):
+            return None
+        adt = norm(str(v[1]))
+        for tg in self.prog.trait_impls.get('std::iter::Iterator::next', ()):
+            isf = getattr(self.prog.bodies[tg], 'impl_self', None) or {}
+            if isf.get('adt') and norm(isf['adt']) == adt:
+                return tg
+        return None
 
     def _forget_colls(self, b, st, raw, args, name, line):
         """A tracked collection handed by reference to code that is not stepped into may be changed there."""
@@ -876,6 +939,7 @@ class SymEx:
                 s2.frames[_tg] = dict(_saved)
             else:
                 s2.frames.pop(_tg, None)
+                s2.frames.pop('#gargs:' + _tg, None)
             if _caller is not None and _caller in s2.frames:
                 s2.env = s2.frames[_caller]
             k(s2, rv)
@@ -918,6 +982,10 @@ class SymEx:
             return None
         if ext in CMP_TRAIT and len(args) == 2:
             return mk_cmp(CMP_TRAIT[ext], self.load(st, args[0], b), self.load(st, args[1], b))
+        if ext.startswith(('<&A as std::cmp::PartialOrd>::', '<&A as std::cmp::PartialEq>::', '<&mut A as std::cmp::PartialOrd>::', '<&mut A as std::cmp::PartialEq>::')) and \
+                last in ('lt', 'le', 'gt', 'ge', 'eq', 'ne') and len(args) == 2:
+            # the comparison of two references is the comparison of what they refer to
+            return mk_cmp(last, self.load(st, args[0], b), self.load(st, args[1], b))
         if ext in LOCK_CALLS and args:
             st.events.append(('call', ext, tuple(args), line, b.nid, self.place_key(b, st, dest)))
             return ('aggr', RESULT, 'Ok', (args[0],))
@@ -1128,6 +1196,10 @@ class SymEx:
         if ext in ('std::ops::FnOnce::call_once', 'std::ops::FnMut::call_mut', 'std::ops::Fn::call') and args:
             clo = args[0]
             cargs = self.untuple(args[1]) if len(args) > 1 else []
+            if isinstance(clo, tuple) and clo and clo[0] == 'fn':
+                # a function item passed as a value (`f(AccessTime::last_accessed, ..)`): calling it is calling that function
+                self.apply_fn(clo, cargs, st, depth, out, lambda s2, rv: resume(s2, rv))
+                return 'handled'
             if self.call_closure(clo, cargs, st, depth, out, lambda s2, rv: resume(s2, rv)):
                 return 'handled'
             st.events.append(('call', 'callback', tuple([clo] + list(cargs)), line, b.nid, None))
@@ -1246,6 +1318,18 @@ class SymEx:
             return 'handled'
         if ext.endswith('Iterator::take') and len(args) == 2 and isinstance(args[0], tuple) and args[0] and args[0][0] in ('chan_iter', 'iter_from_fn'):
             return args[0]
+        if ext.endswith('Iterator::take') and len(args) == 2 and self._incrate_iter_next(args[0]):
+            # a bounded view of an iterator implemented in this crate: next() is "count exhausted -> None" or the inner next()
+            return ('iter_take', args[0], args[1])
+        if last == 'next' and ext.endswith(' as std::iter::Iterator>::next') and args and isinstance(args[0], tuple) and args[0] and args[0][0] == 'iter_take':
+            it = args[0]
+            s_done = st.fork()
+            nx_ = ('call', 'std::iter::Iterator::next', (it,))
+            s_done.conds.append((('discr', nx_), 0)); s_done.known[('discr', nx_)] = 0
+            resume(s_done, NONE)
+            tgt_ = self._incrate_iter_next(it[1])
+            self.inline(self.prog.bodies[tgt_], [it[1]], st, depth, out, lambda s3, rv: resume(s3, rv))
+            return 'handled'
         if (ext.startswith('std::iter::Iterator::') or ' as std::iter::Iterator>::' in ext) and args:
             # lazy adaptors are terms; `next` / `find` / `find_map` on them pull one abstract item through the closures
             # (items the predicate rejects are skipped by the adaptor itself: only the accepted item and exhaustion are outcomes)
